@@ -3,4 +3,5 @@ CONSTANTS
   Dev <- DevSet
 INVARIANT ResolvedAsDocumented
 INVARIANT OneClassSet
+INVARIANT KindIsLocal
 ACTION_CONSTRAINT EmitCase
